@@ -40,11 +40,22 @@ def _progress(ctx, fam):
 
 
 def replay_family(ctx, fam, behs, env=None, race=False, exhaustive_depth=None, binary=None,
-                  classify=None, groups=("drv",)):
+                  classify=None, groups=("drv",), batch=None):
     """Replay behaviours; every mismatch Real != Req that reproduces in isolation is a violation.
     A crash or hang of the driver is attributed to the behaviour in progress (progress file),
     re-run twice alone, and only then reported; the remaining behaviours are still replayed."""
     binary = binary or drv_binary(ctx, race=race, groups=groups)
+    if batch and len(behs) > batch:
+        # several processes (per-process resources such as never-unmapped stub pages are finite)
+        tot = None
+        for i in range(0, len(behs), batch):
+            s1 = replay_family(ctx, fam, behs[i:i + batch], env, race, exhaustive_depth, binary, classify, groups)
+            if tot is None:
+                tot = dict(s1)
+            else:
+                for k in ("runs", "behaviours", "mismatches", "debug_steps"):
+                    tot[k] = tot.get(k, 0) + s1.get(k, 0)
+        return tot
     start, crashes, total = 0, 0, {"runs": 0, "behaviours": 0, "mismatches": 0, "worlds": 1}
     all_mms = []
     while start < len(behs):
